@@ -178,4 +178,18 @@ def run (s : State) : List Event → Option State
 
 def Reachable (s : State) : Prop := ∃ es, run init es = some s
 
+/-! ### several tasks
+
+Every task has its own levels (`task = asyncio.current_task()`, all other state of `task_timeout` is
+local to the call): a system of tasks is one `State` per task, an event of task `t` is a `step` of
+component `t`.  Nothing of `task_timeout` is shared between tasks — in particular not through
+context variables, which a child task would inherit from its creator. -/
+
+abbrev MState := Nat → State
+
+def minit : MState := fun _ => init
+
+def mstep (ms : MState) (t : Nat) (e : Event) : Option MState :=
+  (step (ms t) e).map fun s' => fun u => if u = t then s' else ms u
+
 end Asynkit.Timeout
